@@ -255,6 +255,30 @@ def oracle_directed(DH):
         return "directed handshake fails"
     if list(DH.nodes.degree.asdict()) != nodes or list(DH.edges.size.asdict()) != edges:
         return "directed views do not follow insertion order"
+    # the order of a directed edge is |tail U head| - 1; degrees restricted to an order count the edges of that order only
+    order = {e: len(set(de[e][0]) | set(de[e][1])) - 1 for e in edges}
+    if DH.edges.order.asdict() != order:
+        return "directed order is not |tail U head| - 1"
+    for k in sorted(set(order.values()) | {0, 1, 2})[:6]:
+        want_in = {n: sum(1 for e in dm[n][0] if order[e] == k) for n in nodes}
+        want_out = {n: sum(1 for e in dm[n][1] if order[e] == k) for n in nodes}
+        want_deg = {n: sum(1 for e in set(dm[n][0]) | set(dm[n][1]) if order[e] == k) for n in nodes}
+        if DH.nodes.in_degree(order=k).asdict() != want_in:
+            return f"in_degree(order={k}) does not count the edges of that order having the node in their head"
+        if DH.nodes.out_degree(order=k).asdict() != want_out:
+            return f"out_degree(order={k}) does not count the edges of that order having the node in their tail"
+        if DH.nodes.degree(order=k).asdict() != want_deg:
+            return f"degree(order={k}) does not count the edges of that order incident to the node"
+    # weighted variants on a numeric edge attribute (missing values count 1)
+    wts = {e: DH.edges[e].get("w", 1) for e in edges}
+    if all(isinstance(x, (int, float)) and not isinstance(x, bool) for x in wts.values()):
+        for k in (None,) + tuple(sorted(set(order.values()))[:3]):
+            sel = (lambda e: True) if k is None else (lambda e, k=k: order[e] == k)
+            kw = {} if k is None else {"order": k}
+            if DH.nodes.in_degree(weight="w", **kw).asdict() != {n: sum(wts[e] for e in dm[n][0] if sel(e)) for n in nodes}:
+                return f"in_degree(weight='w', order={k}) is not the weighted count"
+            if DH.nodes.out_degree(weight="w", **kw).asdict() != {n: sum(wts[e] for e in dm[n][1] if sel(e)) for n in nodes}:
+                return f"out_degree(weight='w', order={k}) is not the weighted count"
     return None
 
 
